@@ -138,6 +138,8 @@ def case_strategy(draw, allow_rle=False, allow_relabel=True):
             sub.append(dec[0])
         case["imetrics"] = [m for m in PM.METRICS if m in sub]
     case["primes"] = draw(st.lists(st.sampled_from(sorted(lib.PRIMES)), min_size=0, max_size=2)) if draw(st.integers(0, 2)) == 0 else []
+    # the evaluator itself is not fresh: it has evaluated an input of another dimensionality (diagonal contact) before
+    case["warm"] = draw(st.integers(0, 3)) == 0
     return case
 
 
@@ -252,6 +254,12 @@ def check(case, stats):
     stats.record(case, nontrivial, classes)
 
     ev = lib.evaluator(cfg)
+    if case.get("warm"):
+        probe = np.zeros((3, 3) if ref.ndim == 3 else (2, 3, 3), dtype=pred.dtype)
+        probe[..., 0, 0] = 1
+        probe[..., 1, 1] = 1
+        H.lib_call(ev.evaluate, probe, probe.copy())
+        stats.count("evaluator_used_before_on_another_dimensionality")
     pc, rc = pred.copy(), ref.copy()
     res = H.lib_call(ev.evaluate, pred, ref)["ungrouped"][0]
     lr = PM.lib_result(res, metrics=mets)
